@@ -76,7 +76,7 @@ func c04Corpus() []*Case {
 
 // mutateField applies one field-level malformation to a message.
 func mutateMsg(r *Rand, m *pgwire.FMsg, limit int) {
-	switch r.Intn(9) {
+	switch r.Intn(10) {
 	case 0:
 		m.DeclLen = u32p(uint32(r.PickInt(0, 1, 2, 3, limit+4, limit+5, 0x7fffffff, 0xffffffff)))
 	case 1:
@@ -87,7 +87,7 @@ func mutateMsg(r *Rand, m *pgwire.FMsg, limit int) {
 		if m.CountOverride == nil {
 			m.CountOverride = map[string]int{}
 		}
-		m.CountOverride[r.Pick("oids", "pfmt", "params", "rfmt")] = r.PickInt(0xFFFF, 0x7FFF, 1, 255)
+		m.CountOverride[r.Pick("oids", "pfmt", "params", "rfmt")] = r.PickInt(0xFFFF, 0x7FFF, 1, 255, 0x8000, 0x8001, 0x8002, 0xC000, 0x5556, 0x4000)
 	case 4:
 		m.Tail = r.Bytes(r.Range(1, 40))
 	case 5:
@@ -108,6 +108,25 @@ func mutateMsg(r *Rand, m *pgwire.FMsg, limit int) {
 		m.DeclLen = u32p(uint32(r.PickInt(1<<30, 1<<31-1, 0xfffffff0)))
 	case 8:
 		m.S1 = r.Pick("select $5", "select $0", "$99999999999999999999", "$65536 $1", strings.Repeat("?", 300), "$1$2$3 $3 $2", "x $-1 $ $$ $9")
+	case 9:
+		// a hostile text: long runs of UTF-8 continuation bytes, of lead bytes
+		// without continuation, of 0xFF, format verbs - as query text or as a
+		// Bind parameter value
+		h := strings.Repeat(r.Pick("\x80", "\xbf", "\xc3", "\xf0\x9f", "\xff", "%s%n%x", "\xe2\x82"), r.PickInt(600, 1025, 1026, 3000))
+		switch m.K {
+		case "Q":
+			m.S1 = h
+		case "P":
+			m.S2 = h
+		case "B":
+			if len(m.Params) > 0 {
+				m.Params[r.Intn(len(m.Params))] = pgwire.Param{V: []byte(h)}
+			} else {
+				m.Params = []pgwire.Param{{V: []byte(h)}}
+			}
+		default:
+			*m = pgwire.FMsg{K: "Q", S1: h}
+		}
 	}
 }
 
@@ -495,7 +514,7 @@ func c04Fixed(tier string) []*Case {
 		out = append(out, mk(pgwire.FMsg{K: "typed", T: 'B', Data: body}, parse))
 	}
 	for _, key := range []string{"pfmt", "params", "rfmt"} {
-		for _, n := range []int{0xFFFF, 0x7FFF, 3} {
+		for _, n := range []int{0xFFFF, 0x7FFF, 3, 0x8000, 0x8001, 0x8002, 0xC001} {
 			b := bindOK
 			b.CountOverride = map[string]int{key: n}
 			if key == "rfmt" && n == 3 {
